@@ -362,12 +362,12 @@ struct Cnt {
   unspec: AtomicU64,
 }
 
-fn judge(run: &Run, cnt: &Cnt, family: &str, spec: &Spec, what_input: &str, expected: &Out, via_xml: &str, via_struct: &str, class: &str) {
+fn judge(run: &Run, cnt: &Cnt, family: &str, spec: &Spec, what_input: &str, ctx_text: &str, expected: &Out, via_xml: &str, via_struct: &str, class: &str) {
   // the generated models type their input data as numbers (input data must be typed): a string input
   // reaches the table only on the struct path
   let via_xml = if what_input.contains("Str(") { via_struct } else { via_xml };
   cnt.evals.fetch_add(2, Ordering::Relaxed);
-  let case = || json!({"engine":"c03","family":family,"policy":spec.policy.name(),"xml":spec.xml(),"input":what_input,"expected":expected.show()});
+  let case = || json!({"engine":"c03","family":family,"policy":spec.policy.name(),"xml":spec.xml(),"input":what_input,"ctx":ctx_text,"expected":expected.show()});
   if via_xml != via_struct {
     run.violation(
       &format!("paths-differ:{}:{}:{}", family, spec.policy.name(), class),
@@ -647,7 +647,7 @@ pub fn run() {
               "without-output-values"
             }
           );
-          judge(&run, &cnt, "hit-policy", spec, &format!("match vector {:?}", matches), &expected, &vx[k], &vs[k], &class);
+          judge(&run, &cnt, "hit-policy", spec, &format!("match vector {:?}", matches), &contexts[k].to_string(), &expected, &vx[k], &vs[k], &class);
         }
       }
     }
@@ -710,7 +710,7 @@ pub fn run() {
           let expected = if unspec { Out::Unspec } else { spec.reference(&matches) };
           let class = format!("{}-inputs:{}", names.len(), if spec.inputs[0].1.is_some() { "with-input-values" } else { "plain" });
           let what = format!("{:?} against entries {:?}", t, spec.rules.iter().map(|r| r.0.clone()).collect::<Vec<_>>());
-          judge(&run, &cnt, "matching", spec, &what, &expected, &vx[k], &vs[k], &class);
+          judge(&run, &cnt, "matching", spec, &what, &contexts[k].to_string(), &expected, &vx[k], &vs[k], &class);
         }
       }
     }
@@ -733,4 +733,31 @@ pub fn run() {
   run.set("unspecified_not_compared", json!(cnt.unspec.load(Ordering::Relaxed)));
   run.assume("reference hit-policy table and entry predicates in engines/c03.rs; `-` on a null input, not(..) on a value of another kind, PRIORITY / OUTPUT ORDER without output values, aggregators over several output clauses and partially defined defaults are left unspecified");
   run.finish();
+}
+
+/// replay of one recorded (table, input): the XML path is evaluated again and compared with the recorded expectation
+pub fn replay_case(case: &serde_json::Value) -> String {
+  let xml = case.get("xml").and_then(|x| x.as_str()).unwrap_or("");
+  let expected = case.get("expected").and_then(|x| x.as_str()).unwrap_or("");
+  let defs = match dmntk_model::parse(xml) {
+    Ok(d) => d,
+    Err(e) => return format!("FAIL the table model does not parse: {}", e),
+  };
+  let me = match ModelEvaluator::new(&defs) {
+    Ok(m) => m,
+    Err(e) => return format!("FAIL the table model does not build: {}", e),
+  };
+  let ctx_text = case.get("ctx").and_then(|x| x.as_str()).unwrap_or("{}");
+  let ctx = match dmntk_feel_evaluator::evaluate_context(&Scope::default(), ctx_text) {
+    Ok(c) => c,
+    Err(e) => return format!("MACHINERY the recorded input {} does not evaluate: {}", ctx_text, e),
+  };
+  let got = show_value(&me.evaluate_invocable("D", &ctx));
+  if expected.is_empty() || expected == "<unspecified>" {
+    format!("OBSERVED input {} gives {}", ctx_text, got)
+  } else if got == expected {
+    format!("PASS input {} gives {}", ctx_text, got)
+  } else {
+    format!("FAIL input {} gives {} but the hit policy prescribes {}", ctx_text, got, expected)
+  }
 }
